@@ -547,6 +547,14 @@ def check(eng, res):
     insert_accept(eng, res)
     res.doc("R-INSERT-COND", "descriptors are inserted exactly when the token lacks the one for that neighbour (finite table over element count x descriptor count)")
     insert_conditions(eng, res)
+    # an inserted descriptor must denote what the same text denotes when it is read back: it is attached by parsing text,
+    # never by constructing a descriptor with an atom of the caller's choosing (shared with C02)
+    from . import c02 as _c02
+
+    sub2 = type(res)(res.prop)
+    _c02.descriptor_origin(eng, sub2)
+    res.obligations += sub2.obligations
+    res.doc("R-DESCR-ORIGIN", "descriptors that bind an atom are constructed by the token scanner only (an inserted descriptor is parsed like a written one; shared with C02)")
     res.doc("R-PRINT-EXACT", "numbers are written into notation text with full precision (printers and text handed to notation constructors)")
     print_exact(eng, res)
     res.assumptions += [
